@@ -664,6 +664,443 @@ static void timer_callback(int id)
         g_model->on_callback(id);
 }
 
+// ================================================================ two managers sharing the timers (bfs)
+// A timer belongs to the manager that planned it LAST: it fires only from that manager's exec, and both
+// managers' empty()/minimal_interval() follow.  is_planned() only says "linked somewhere", so handing a
+// pending timer from one manager to the other is the interesting transition.
+struct TwoManagers;
+static TwoManagers *g_two = nullptr;
+static void two_callback(int id);
+
+struct TwoManagers : mc::Model
+{
+    static const int NT = 2, NM = 2;
+    struct TOp
+    {
+        int kind, m, t, a, b;
+    };
+    enum
+    {
+        T_PLAN3,
+        T_PLAN1,
+        T_UNPLAN,
+        T_EXEC,
+        T_SCRIPT
+    };
+    static const vector<TOp> &table()
+    {
+        static vector<TOp> ops;
+        if (ops.empty())
+        {
+            for (int m = 0; m < NM; m++)
+                for (int d : {0, 1, 2, 7})
+                    ops.push_back({T_EXEC, m, 0, d, 0});
+            for (int m = 0; m < NM; m++)
+                for (int t = 0; t < NT; t++)
+                    for (int off : {-2, 0, 1})
+                        for (int i = 1; i <= 3; i++)
+                            ops.push_back({T_PLAN3, m, t, off, i});
+            for (int m = 0; m < NM; m++)
+                for (int t = 0; t < NT; t++)
+                    ops.push_back({T_PLAN1, m, t, 0, 0});
+            for (int t = 0; t < NT; t++)
+                ops.push_back({T_UNPLAN, 0, t, 0, 0});
+            for (int t = 0; t < NT; t++)
+                for (int sc = 0; sc < 2; sc++)
+                    ops.push_back({T_SCRIPT, 0, t, sc, 0});
+        }
+        return ops;
+    }
+    struct RT
+    {
+        int owner = -1; // manager that planned it last, -1: not planned
+        int64_t start = 0, interval = 0;
+        int script = 0; // 0 nothing, 1 unplan self
+        int64_t deadline() const { return start + interval; }
+    };
+    igris::timer_manager *mgr[NM];
+    Timer *tim[NT];
+    RT ref[NT];
+    Fifo fifo[NM]; // reference order per manager (deadline, then order of planning)
+    int64_t now = 0;
+    int cur = -1; // manager whose exec is running
+    int fired = 0;
+    bool suspect = false;
+    const vector<TOp> &ops;
+
+    TwoManagers() : ops(table())
+    {
+        for (int m = 0; m < NM; m++)
+            mgr[m] = new igris::timer_manager;
+        for (int t = 0; t < NT; t++)
+            tim[t] = new Timer(igris::make_delegate(two_callback), (int)t);
+        g_two = this;
+    }
+    ~TwoManagers()
+    {
+        if (g_two == this)
+            g_two = nullptr;
+        if (suspect)
+            return; // an oracle failed: queues may be inconsistent, leak
+        for (int t = 0; t < NT; t++)
+            tim[t]->unplan();
+        for (int t = 0; t < NT; t++)
+            delete tim[t];
+        for (int m = 0; m < NM; m++)
+            delete mgr[m];
+    }
+    int nops() override { return (int)ops.size(); }
+    string opname(int o) override
+    {
+        const TOp &p = ops[o];
+        char M = (char)('A' + p.m);
+        switch (p.kind)
+        {
+        case T_PLAN3:
+            return mc::fmt("%c.plan(t%d,now%+d,%d)", M, p.t, p.a, p.b);
+        case T_PLAN1:
+            return mc::fmt("%c.plan(t%d)", M, p.t);
+        case T_UNPLAN:
+            return mc::fmt("t%d.unplan()", p.t);
+        case T_EXEC:
+            return mc::fmt("%c.exec(now+=%d)", M, p.a);
+        default:
+            return mc::fmt("t%d script=%s", p.t, p.a ? "unplan_self" : "nop");
+        }
+    }
+    void ref_unplan(int t)
+    {
+        if (ref[t].owner >= 0)
+            fifo[ref[t].owner].remove(t);
+        ref[t].owner = -1;
+    }
+    void ref_plan(int m, int t)
+    {
+        ref_unplan(t);
+        Fifo &f = fifo[m];
+        int pos = 0;
+        while (pos < f.n && ref[f.v[pos]].deadline() <= ref[t].deadline())
+            pos++;
+        f.insert(pos, t);
+        ref[t].owner = m;
+    }
+    void on_callback(int id)
+    {
+        fired++;
+        if (fired > FUEL)
+        {
+            mc::violation("C16.two_managers.exec.runaway", "more than %d callbacks in one exec(now=%lld)", FUEL, (long long)now);
+            throw Runaway();
+        }
+        RT &r = ref[id];
+        char M = (char)('A' + cur);
+        if (cur < 0)
+            mc::violation("C16.two_managers.exec.fired_outside_exec", "t%d fired outside exec", id);
+        else if (r.owner != cur)
+        {
+            mc::violation(r.owner < 0 ? "C16.two_managers.exec.fired_unplanned" : "C16.two_managers.exec.fired_from_other_manager",
+                          "t%d fired from %c.exec(now=%lld) but it was last planned on %s", id, M, (long long)now,
+                          r.owner < 0 ? "no manager" : (r.owner ? "B" : "A"));
+            ref_plan(cur, id); // keep going from the implementation's view
+        }
+        else
+        {
+            if (now < r.deadline())
+                mc::violation("C16.two_managers.exec.fired_before_deadline", "t%d fired from %c.exec(now=%lld), deadline %lld+%lld", id, M, (long long)now,
+                              (long long)r.start, (long long)r.interval);
+            for (int j = 0; j < NT; j++)
+                if (j != id && ref[j].owner == cur && ref[j].deadline() < r.deadline())
+                    mc::violation("C16.two_managers.exec.not_deadline_order", "t%d (deadline %lld) fired from %c.exec while t%d (deadline %lld) was pending there",
+                                  id, (long long)r.deadline(), M, j, (long long)ref[j].deadline());
+        }
+        // script, then the re-arm rule (on the manager that is executing)
+        if (r.script == 1)
+        {
+            ref_unplan(id);
+            tim[id]->unplan();
+        }
+        else
+        {
+            r.start += r.interval;
+            ref_plan(cur, id);
+        }
+    }
+    bool apply(int o) override
+    {
+        TOp p = ops[o];
+        g_two = this;
+        const char *nm = "";
+        switch (p.kind)
+        {
+        case T_PLAN3:
+            mc::crash_context("C16.two_managers.plan.crash");
+            if (ref[p.t].owner >= 0 && ref[p.t].owner != p.m)
+            {
+                mc::nontrivial(); // a pending timer changes its manager
+                if (ref[p.t].start == now + p.a && ref[p.t].interval == p.b)
+                    mc::count("handover_with_unchanged_parameters");
+            }
+            mgr[p.m]->plan(*tim[p.t], now + p.a, p.b);
+            ref[p.t].start = now + p.a;
+            ref[p.t].interval = p.b;
+            ref_plan(p.m, p.t);
+            nm = "plan";
+            break;
+        case T_PLAN1:
+            if (ref[p.t].interval <= 0)
+                return false; // precondition: intervals > 0
+            mc::crash_context("C16.two_managers.plan.crash");
+            if (ref[p.t].owner >= 0 && ref[p.t].owner != p.m)
+                mc::nontrivial();
+            mgr[p.m]->plan(*tim[p.t]);
+            ref_plan(p.m, p.t);
+            nm = "plan";
+            break;
+        case T_UNPLAN:
+            mc::crash_context("C16.two_managers.unplan.crash");
+            tim[p.t]->unplan();
+            ref_unplan(p.t);
+            nm = "unplan";
+            break;
+        case T_SCRIPT:
+            if (ref[p.t].script == p.a)
+                return false;
+            ref[p.t].script = p.a;
+            nm = "script";
+            break;
+        case T_EXEC:
+            now += p.a;
+            cur = p.m;
+            fired = 0;
+            mc::crash_context("C16.two_managers.exec.crash");
+            try
+            {
+                mgr[p.m]->exec(now);
+            }
+            catch (Runaway &)
+            {
+                cur = -1;
+                g_lock_depth = 0;
+                suspect = true;
+                return true;
+            }
+            cur = -1;
+            for (int t = 0; t < NT; t++)
+                if (ref[t].owner == p.m && ref[t].deadline() <= now)
+                    mc::violation("C16.two_managers.exec.due_timer_not_fired", "after %c.exec(now=%lld) t%d, last planned on %c, is still pending with deadline %lld+%lld",
+                                  'A' + p.m, (long long)now, t, 'A' + p.m, (long long)ref[t].start, (long long)ref[t].interval);
+            if (fired >= 2)
+                mc::nontrivial();
+            mc::outcome(mc::fmt("%c%d", 'A' + p.m, fired < 9 ? fired : 9));
+            nm = "exec";
+            break;
+        }
+        mc::crash_context("C16.two_managers.observe.crash");
+        check(nm);
+        if (mc::case_has_violation())
+            suspect = true;
+        return true;
+    }
+    void check(const char *nm)
+    {
+        if (g_lock_depth != 0)
+            mc::harness_error("system_lock depth %d after %s", g_lock_depth, nm);
+        for (int t = 0; t < NT; t++)
+        {
+            bool pl = tim[t]->is_planned();
+            if (pl != (ref[t].owner >= 0))
+                mc::violation(mc::fmt("C16.two_managers.%s.pending_set", nm), "t%d is_planned()=%d, reference owner %d (now=%lld)", t, pl, ref[t].owner, (long long)now);
+            if (ref[t].owner >= 0 && tim[t]->finish() != ref[t].deadline())
+                mc::violation(mc::fmt("C16.two_managers.%s.deadline", nm), "t%d finish()=%lld, reference %lld+%lld", t, (long long)tim[t]->finish(),
+                              (long long)ref[t].start, (long long)ref[t].interval);
+        }
+        for (int m = 0; m < NM; m++)
+        {
+            int np = 0;
+            int64_t mind = 0;
+            for (int t = 0; t < NT; t++)
+                if (ref[t].owner == m)
+                {
+                    if (!np || ref[t].deadline() < mind)
+                        mind = ref[t].deadline();
+                    np++;
+                }
+            if (mgr[m]->empty() != (np == 0))
+            {
+                mc::violation(mc::fmt("C16.two_managers.%s.empty", nm), "%c.empty()=%d but %d timers were last planned on %c (now=%lld)", 'A' + m, mgr[m]->empty(), np,
+                              'A' + m, (long long)now);
+                continue;
+            }
+            if (np)
+            {
+                int64_t mi = mgr[m]->minimal_interval(now);
+                if (mi != mind - now)
+                    mc::violation(mc::fmt("C16.two_managers.%s.minimal_interval", nm), "%c.minimal_interval(%lld)=%lld, reference next deadline %lld", 'A' + m,
+                                  (long long)now, (long long)mi, (long long)mind);
+            }
+        }
+    }
+    // real queue of manager m as timer ids (private list walk), or the reference order in the public-only build
+    string queue(int m)
+    {
+        string q;
+#ifndef C16_PUBLIC_ONLY
+        igris::dlist_node *head = &mgr[m]->timer_list.list;
+        int steps = 0;
+        for (igris::dlist_node *x = head->next; x != head; x = x->next)
+        {
+            if (++steps > NT)
+                return q + "!";
+            int id = -1;
+            for (int t = 0; t < NT; t++)
+                if (x == &tim[t]->lnk)
+                    id = t;
+            if (id < 0)
+                return q + "?";
+            q += (char)('0' + id);
+        }
+#else
+        for (int i = 0; i < fifo[m].n; i++)
+            q += (char)('0' + fifo[m].v[i]);
+        if (mgr[m]->empty() != (fifo[m].n == 0))
+            q += "E";
+#endif
+        return q;
+    }
+    string key() override
+    {
+        string k = mc::fmt("%lld", (long long)now);
+        for (int t = 0; t < NT; t++)
+        {
+#ifndef C16_PUBLIC_ONLY
+            long long st = tim[t]->_start, iv = tim[t]->_interval;
+#else
+            long long st = tim[t]->finish() - ref[t].interval, iv = ref[t].interval;
+#endif
+            k += mc::fmt("|%d,%d,%lld,%lld;%d,%lld,%lld", ref[t].script, (int)tim[t]->is_planned(), st, iv, ref[t].owner, (long long)ref[t].start,
+                         (long long)ref[t].interval);
+        }
+        for (int m = 0; m < NM; m++)
+            k += "|" + queue(m) + "/" + string(1, (char)('0' + fifo[m].n));
+        return k;
+    }
+};
+static void two_callback(int id)
+{
+    if (g_two)
+        g_two->on_callback(id);
+}
+
+// ================================================================ unsigned time counters across the wrap point (tree)
+// timer_manager_basic<timer_spec<U>> with U = uint32_t / uint64_t and ONE timer whose start lies just below
+// the end of the counter range.  check() compares the modular difference curtime - start with the interval,
+// so a single timer must behave exactly as with unbounded time as long as start is not ahead of now and less
+// than half the range elapses.  (Several timers are outside this universe: plan() orders by the absolute,
+// wrapped deadline and mis-sorts deadlines on different sides of the wrap on the unchanged code; so does any
+// start ahead of now, and any unsigned type narrower than int, whose difference is promoted to int.)
+template <class U> struct WrapCase
+{
+    typedef igris::timer_spec<U> Spec;
+    static int fired;
+    static U now, rstart, rinterval;
+    static const char *tag;
+    static void cb(int)
+    {
+        fired++;
+        U elapsed = (U)(now - rstart);
+        if (elapsed < rinterval)
+            mc::violation(mc::fmt("C16.%s.exec.fired_before_deadline", tag), "fired at now=%llx with start=%llx interval=%llx (elapsed %llx)",
+                          (unsigned long long)now, (unsigned long long)rstart, (unsigned long long)rinterval, (unsigned long long)elapsed);
+        rstart = (U)(rstart + rinterval); // re-arm at deadline + interval (modular)
+        if (fired > 5000)
+            throw Runaway();
+    }
+    static void run(U base, U interval, int off, const int *deltas, int nd, int unplan_before)
+    {
+        igris::timer_manager_basic<Spec> mgr;
+        igris::timer_basic<Spec, int> tim(igris::make_delegate(cb), 0);
+        now = base;
+        rstart = (U)(base - (U)off); // start = now - off: never ahead of now
+        rinterval = interval;
+        mgr.plan(tim, rstart, interval);
+        bool planned = true;
+        for (int s = 0; s < nd; s++)
+        {
+            if (s == unplan_before)
+            {
+                tim.unplan();
+                planned = false;
+            }
+            now = (U)(now + (U)deltas[s]);
+            U elapsed = (U)(now - rstart);
+            long want = planned ? (long)(elapsed / rinterval) : 0;
+            fired = 0;
+            mc::crash_context("C16.%s.exec.crash", tag);
+            try
+            {
+                mgr.exec(now);
+            }
+            catch (Runaway &)
+            {
+                mc::violation(mc::fmt("C16.%s.exec.runaway", tag), "more than 5000 callbacks in exec(%llx)", (unsigned long long)now);
+                g_lock_depth = 0;
+                tim.unplan();
+                return;
+            }
+            if (fired != want)
+                mc::violation(mc::fmt("C16.%s.exec.%s", tag, fired < want ? "due_timer_not_fired" : "fired_too_often"),
+                              "exec(%llx): %d callbacks, want %ld (plan start=%llx interval=%llx, step %d)", (unsigned long long)now, fired, want,
+                              (unsigned long long)(U)(base - (U)off), (unsigned long long)interval, s);
+            if (tim.is_planned() != planned || mgr.empty() != !planned)
+                mc::violation(mc::fmt("C16.%s.exec.pending_set", tag), "is_planned()=%d empty()=%d, want planned=%d", tim.is_planned(), mgr.empty(), planned);
+            if (planned && !mc::case_has_violation())
+            {
+                U dl = (U)(rstart + rinterval);
+                if (tim.finish() != dl)
+                    mc::violation(mc::fmt("C16.%s.exec.deadline", tag), "finish()=%llx want %llx", (unsigned long long)tim.finish(), (unsigned long long)dl);
+                if (tim.check(now) || tim.check((U)(dl - 1)) || !tim.check(dl) || !tim.check((U)(dl + 7)))
+                    mc::violation(mc::fmt("C16.%s.check_predicate", tag), "start=%llx interval=%llx: check(now=%llx)=%d check(deadline-1)=%d check(deadline)=%d check(deadline+7)=%d",
+                                  (unsigned long long)rstart, (unsigned long long)rinterval, (unsigned long long)now, tim.check(now), tim.check((U)(dl - 1)), tim.check(dl),
+                                  tim.check((U)(dl + 7)));
+                if ((U)mgr.minimal_interval(now) != (U)(dl - now))
+                    mc::violation(mc::fmt("C16.%s.minimal_interval", tag), "minimal_interval(%llx)=%llx want %llx", (unsigned long long)now,
+                                  (unsigned long long)(U)mgr.minimal_interval(now), (unsigned long long)(U)(dl - now));
+            }
+            mc::outcome(mc::fmt("%s%ld", tag, want < 9 ? want : 9));
+        }
+        tim.unplan();
+    }
+};
+template <class U> int WrapCase<U>::fired;
+template <class U> U WrapCase<U>::now;
+template <class U> U WrapCase<U>::rstart;
+template <class U> U WrapCase<U>::rinterval;
+template <> const char *WrapCase<uint32_t>::tag = "wrap_u32";
+template <> const char *WrapCase<uint64_t>::tag = "wrap_u64";
+
+static void wrap_checks()
+{
+    static const long long bases[] = {-0x100, -2, -1, 0, 1, -0x201}; // relative to 2^W: 0xFFFFFF00, ...FE, ...FF, 0, 1, 0xFFFFFDFF
+    static const int intervals[] = {1, 2, 3, 0x100, 0x200};
+    static const int deltas[] = {0, 1, 2, 7, 0xFF, 0x100, 0x1FF, 0x200, 0x201};
+    int c = mc::choose(2 * 6 * 5 * 2);
+    int w64 = c / 60, bi = c / 10 % 6, ii = c / 2 % 5, off = (c % 2) * 2;
+    int d[3];
+    d[0] = deltas[mc::choose(9)];
+    d[1] = deltas[mc::choose(9)];
+    int last = mc::choose(9 * 2);
+    d[2] = deltas[last % 9];
+    int unplan_before = last / 9 ? 2 : -1;
+    mc::describe("uint%d time: base 2^%d%+lld, plan(start=base-%d, interval=0x%x), exec at +0x%x +0x%x %s+0x%x", w64 ? 64 : 32, w64 ? 64 : 32, bases[bi], off,
+                 intervals[ii], d[0], d[1], unplan_before >= 0 ? "unplan " : "", d[2]);
+    if (w64)
+        WrapCase<uint64_t>::run((uint64_t)bases[bi], (uint64_t)intervals[ii], off, d, 3, unplan_before);
+    else
+        WrapCase<uint32_t>::run((uint32_t)bases[bi], (uint32_t)intervals[ii], off, d, 3, unplan_before);
+    if (bases[bi] < 0)
+        mc::nontrivial(); // the counter passes its end during the case or the deadline lies beyond it
+}
+
 // ================================================================ stimer (tree)
 static void stimer_checks()
 {
@@ -924,6 +1361,14 @@ MC_INIT
     // covers histories of any length inside the horizon
     mc::BfsOpts f;
     f.max_states = 40000000;
+    {
+        mc::BfsOpts t2;
+        t2.depth_quick = 5;
+        t2.depth_thorough = 6;
+        t2.max_states = 40000000;
+        mc::add_bfs("two_managers_2_timers", [] { return std::unique_ptr<mc::Model>(new TwoManagers); }, t2);
+    }
+    mc::add_check("unsigned_time_across_wrap", wrap_checks);
     mc::add_bfs("timer_manager_2_fixpoint",
                 [] { return std::unique_ptr<mc::Model>(new TimerModel(2, mc::thorough() ? C16_HORIZON_T : C16_HORIZON_Q, (int)S_UNPLAN_O2)); }, f);
 #endif
